@@ -98,21 +98,22 @@ class C19(Check):
     prop_module = "PoxModel.Properties.C19"
     lean_targets = ["drv_c19"]
     driver = "drv_c19"
-    theorems = ["Pox.C19.tree_is_forest", "Pox.C19.tree_edge_is_bridge", "Pox.C19.calc_terminates", "Pox.C19.link_events",
-                "Pox.C19.adjacency_exact", "Pox.C19.adjacency_ends_connected", "Pox.C19.flood_ports", "Pox.C19.flood_ports_forest",
+    theorems = ["Pox.C19.cull_loop_is_closed_form", "Pox.C19.calc_raises_iff_selfloop", "Pox.C19.tree_is_forest", "Pox.C19.tree_edge_is_bridge",
+                "Pox.C19.calc_terminates", "Pox.C19.link_events", "Pox.C19.adjacency_exact", "Pox.C19.adjacency_ends_connected",
+                "Pox.C19.flood_ports", "Pox.C19.flood_ports_forest", "Pox.C19.port_mods_are_changes", "Pox.C19.bits_are_prev", "Pox.C19.flood_bits",
                 "Pox.C19.probe_roundtrip", "Pox.C19.flood_ports_defect_D20", "Pox.C19.flood_ports_defect_skip",
                 "Pox.C19.flood_ports_defect_outside_tree"]
-    anchors = [("pox/openflow/discovery.py", 168, 206), ("pox/openflow/discovery.py", 322, 484),
-               ("pox/openflow/spanning_tree.py", 47, 106), ("pox/openflow/spanning_tree.py", 156, 229),
+    anchors = [("pox/openflow/discovery.py", 168, 206), ("pox/openflow/discovery.py", 322, 486),
+               ("pox/openflow/spanning_tree.py", 47, 106), ("pox/openflow/spanning_tree.py", 156, 227),
                ("pox/lib/packet/lldp.py", 110, 189)]
     trusted_base = ["models Model/STree.lean and Model/Discovery.lean hand-written from spanning_tree.py / discovery.py / lldp.py; tied by this correspondence run",
-                    "the culling loop of _calc_spanning_tree is modelled in closed form (first good link of the ordered pair that the set iteration reaches first), not loop by loop; "
-                    "the iteration order of the `switches` set is an oracle argument fed from the harness",
+                    "the culling loop of _calc_spanning_tree is modelled as written (dict-of-dicts as one insertion-ordered association list) and proved equal to the closed form "
+                    "the other proofs use (cull_loop_is_closed_form); the iteration order of the `switches` set is an oracle argument fed from the harness",
                     "harness: stub connections / stub Timer / virtual clock; the union-find forest oracle"]
     assumptions = ["_hold_down and _noflood_by_default are off (their defaults); con.send never raises (the `except: _prev.clear()` path is not modelled)",
                    "a port's NO_FLOOD bit is what the last port_mod on the current connection said; a (re)connecting switch starts with flooding enabled on every port",
                    "cables are point to point (a port is an end of at most one cable) and join two different switches; a switch with two of its own ports cabled together makes "
-                   "_calc_spanning_tree raise AssertionError (modelled, compared, but outside the property's quantifier)",
+                   "_calc_spanning_tree raise AssertionError (theorem calc_raises_iff_selfloop; modelled, compared, but outside the property's quantifier)",
                    "a PacketIn is only ever received from a connected switch; ConnectionUp is raised only for a switch that is not connected",
                    "LLDP payloads are ASCII; TLV types 7, 8, 127 are not modelled; clock values are multiples of 1/8 s (exact in binary64)"]
     design_ref = "DESIGN.md §5 C19, Appendix D.7"
@@ -122,8 +123,9 @@ class C19(Check):
                   "uses only bidirectional links and connects exactly what those connect, within 2|switches| iterations; for EVERY history the LinkEvent stream alternates per link and the "
                   "adjacency is exactly the links with a recent accepted probe and no disconnect since; after every change the repaired handlers leave exactly the tree ports and the "
                   "host-facing ports of every tree switch flooding; the probe round-trips for every dpid < 2^64 and port < 2^16.  Defect witnesses (decide) for the pinned code.")
-    level_note = ("The models follow the code WITH the proposed repairs fixes/D20_discovery_delete_then_raise.diff and fixes/C19-1_spanning_tree_skip_second_direction.diff "
-                  "(Variant `fixed`); the code before them is Variant `pinned`, refuted by flood_ports_defect_D20 / flood_ports_defect_skip and reported as VIOLATION by this check. "
+    level_note = ("The models follow the code with the repairs D20 (discovery pops before it raises) and C19-1 (spanning_tree always recomputes), both committed "
+                  "(Variant `fixed`); the code before them is Variant `pinned`, refuted by flood_ports_defect_D20 / flood_ports_defect_skip. "
+                  "flood_bits states flood_ports for the NO_FLOOD bits the port_mods leave on the switches (bits_are_prev, port_mods_are_changes), given that every port_mod is applied. "
                   "Trusted: Lean kernel, axioms propext/Classical.choice/Quot.sound, the hand-written models, this harness. The theorems are about the models; the runs below are what "
                   "connects them to the code. Switches without any bidirectional link are not updated by _update_tree (proposed known finding C19-2); flood_ports is stated for tree switches.")
     rule = ("calc (dict order shuffled per case): 2 and 3 switches exhaustive over all 13 cable options per pair (none / 1 / 2 parallel cables, each bidirectional or one-way "
@@ -136,8 +138,8 @@ class C19(Check):
     def extra_evidence(self):
         return {"anchored_lines_not_reachable_in_this_configuration":
                 "def lines (executed at import), discovery.py:352-356 (_eat_early_packets off), :371-381 (re-checks of what lldp.parse already enforced), "
-                ":399-400 / :445-446 (except around struct.unpack of a slice whose length was just tested), spanning_tree.py:193-201 (_hold_down off, connect_time None), "
-                ":227-229 (except around con.send): 35 of the 286 anchored lines; the measured maximum is 87.8 %"}
+                ":399-400 / :445-446 (except around struct.unpack of a slice whose length was just tested), spanning_tree.py:191-199 (_hold_down off, connect_time None), "
+                ":225-227 (except around con.send): about 35 anchored lines"}
 
     # ------------------------------------------------------------------ setup
     def setup(self):
